@@ -401,3 +401,189 @@ Proof.
   - contradiction.
   - simpl. rewrite app_nil_r. exact HB.
 Qed.
+
+(* ---- the client iterator: the budget is carried across packets *)
+Lemma sum_wait_el_app : forall a b, sum_wait_el (a ++ b) = sum_wait_el a + sum_wait_el b.
+Proof. induction a as [|w a IH]; intros b; simpl; [reflexivity|]. rewrite IH. lia. Qed.
+
+(* the time a receive takes is at least the time its waits took *)
+Lemma receive_loop_dt_ge : forall F ri N bufsize fuel T buf eof s sels,
+  recv_costs_ok s ->
+  sum_wait_el (rv_waits (receive_loop F ri N bufsize fuel T buf eof s sels))
+    <= rv_dt (receive_loop F ri N bufsize fuel T buf eof s sels)
+  /\ recv_costs_ok (rv_sock (receive_loop F ri N bufsize fuel T buf eof s sels)).
+Proof.
+  intros F ri N bufsize fuel. induction fuel as [|f IH]; intros T buf eof s sels Hc.
+  - destruct eof; simpl; (split; [lia|assumption]).
+  - destruct eof; [rewrite receive_loop_eof; simpl; split; [lia|assumption]|].
+    rewrite receive_loop_step. cbv zeta.
+    pose proof (retry_dt_ge _ _ (sock_recv bufsize) recv_costs_ok (sock_recv_inv bufsize) F ri T s sels Hc) as [HD HI].
+    set (r := retry (sock_recv bufsize) F ri T s sels) in *.
+    destruct (rr_out r) as [chunk T1| |c|]; try (simpl; split; assumption).
+    destruct chunk as [|b ch].
+    + rewrite receive_loop_eof. simpl. rewrite app_nil_r. split; [lia|assumption].
+    + destruct (cons_next _ _ (Some _)) as [[p|] buf']; [simpl; split; assumption|].
+      destruct (tmo_pos T).
+      * destruct (IH (recompute T (rr_dt r)) buf' false (rr_st r) (rr_sels r) HI) as [A B].
+        simpl. rewrite sum_wait_el_app. split; [lia|assumption].
+      * destruct (Nat.ltb (length (b :: ch)) bufsize); [simpl; split; assumption|].
+        destruct (IH T buf' false (rr_st r) (rr_sels r) HI) as [A B].
+        simpl. rewrite sum_wait_el_app. split; [lia|assumption].
+Qed.
+
+Lemma receive_dt_ge : forall F ri N bufsize fuel T buf eof s sels,
+  recv_costs_ok s ->
+  sum_wait_el (rv_waits (receive F ri N bufsize fuel T buf eof s sels))
+    <= rv_dt (receive F ri N bufsize fuel T buf eof s sels)
+  /\ recv_costs_ok (rv_sock (receive F ri N bufsize fuel T buf eof s sels)).
+Proof.
+  intros. unfold receive. destruct (cons_next N buf None) as [[p|] buf'].
+  - simpl. split; [lia|assumption].
+  - apply receive_loop_dt_ge; assumption.
+Qed.
+
+Lemma client_recv_lockwaits : forall F ri N bufsize fuel T l buf eof s sels,
+  cl_lockwaits (client_recv F ri N bufsize fuel T l buf eof s sels) = lk_waits (lock_with_timeout T l).
+Proof. intros. unfold client_recv. destruct (lk_T (lock_with_timeout T l)); reflexivity. Qed.
+
+Lemma client_recv_dt_ge : forall F ri N bufsize fuel t l buf eof s sels,
+  recv_costs_ok s ->
+  let c := client_recv F ri N bufsize fuel (Some t) l buf eof s sels in
+  sum_wait_el (lock_waits (lock_with_timeout (Some t) l) ++ rv_waits (cl_rv c)) <= rv_dt (cl_rv c)
+  /\ recv_costs_ok (rv_sock (cl_rv c)).
+Proof.
+  intros F ri N bufsize fuel t l buf eof s sels Hc. cbv zeta.
+  pose proof (lock_budget t l) as (_ & HS & _). cbv zeta in HS.
+  unfold client_recv. set (k := lock_with_timeout (Some t) l) in *.
+  rewrite sum_wait_el_app.
+  destruct (lk_T k) as [T1|].
+  - destruct (receive_dt_ge F ri N bufsize fuel T1 buf eof s sels Hc) as [A B].
+    unfold convert_rv. destruct (rv_out (receive F ri N bufsize fuel T1 buf eof s sels)); simpl; (split; [lia|assumption]).
+  - simpl. split; [lia|assumption].
+Qed.
+
+(* the waits of one __next__: the blocking lock acquire (if any), then the selector waits *)
+Definition step_waits (st : itstep) : list wait :=
+  map (fun req => {| w_write := false; w_req := req; w_ready := true; w_el := it_lockdt st |}) (it_lockwaits st)
+  ++ it_waits st.
+
+(* the waits of an iteration: up to and including the first __next__ that does not return a packet
+   (StopIteration / an exception ends a `for` loop) *)
+Fixpoint iter_log (steps : list itstep) : list wait :=
+  match steps with
+  | [] => []
+  | st :: rest => step_waits st ++ match it_out st with RvPkt _ => iter_log rest | _ => [] end
+  end.
+
+Lemma iter_budget : forall F ri N bufsize fuel locks t buf eof s sels,
+  ri_ok ri -> recv_costs_ok s ->
+  budget_ok t (iter_log (iter_run F ri N bufsize fuel (Some t) locks buf eof s sels)).
+Proof.
+  intros F ri N bufsize fuel locks. induction locks as [|l locks IH]; intros t buf eof s sels Hri Hc; [exact I|].
+  cbn [iter_run iter_log]. cbv zeta.
+  pose proof (client_recv_budget F ri N bufsize fuel t l buf eof s sels Hri Hc) as HB.
+  pose proof (client_recv_dt_ge F ri N bufsize fuel t l buf eof s sels Hc) as [HD HI]. 
+  unfold step_waits. cbn [it_lockwaits it_lockdt it_waits it_out].
+  rewrite client_recv_lockwaits.
+  change (map (fun req => {| w_write := false; w_req := req; w_ready := true;
+                             w_el := lk_dt (lock_with_timeout (Some t) l) |})
+              (lk_waits (lock_with_timeout (Some t) l)))
+    with (lock_waits (lock_with_timeout (Some t) l)).
+  set (c := client_recv F ri N bufsize fuel (Some t) l buf eof s sels) in *.
+  destruct (rv_out (cl_rv c)) as [p|code|].
+  - apply budget_ok_app; [exact HB|].
+    apply budget_ok_mono with (t := t - rv_dt (cl_rv c)); [lia|].
+    apply budget_ok_max. apply IH; assumption.
+  - rewrite app_nil_r. exact HB.
+  - rewrite app_nil_r. exact HB.
+Qed.
+
+(* ---- a zero timeout never waits on the join / send_all path either (call costs are not negative) *)
+Lemma send_all_loop_zero : forall F ri fuel rest s sels,
+  send_costs_ok s -> sr_waits (send_all_loop F ri fuel rest (Some 0) s sels) = [].
+Proof.
+  intros F ri fuel. induction fuel as [|f IH]; intros rest s sels Hc.
+  - destruct rest; reflexivity.
+  - destruct rest as [|b rest']; [reflexivity|].
+    change (send_all_loop F ri (S f) (b :: rest') (Some 0) s sels) with
+      (let r := send F ri (b :: rest') (Some 0) s sels in
+       match rr_out r with
+       | ROk sent _ => sr_add (rr_dt r) (rr_waits r) (rr_calls r)
+                              (send_all_loop F ri f (skipn sent (b :: rest')) (recompute (Some 0) (rr_dt r)) (rr_st r) (rr_sels r))
+       | o => sres_of_fail r (rout_fail o)
+       end).
+    cbv zeta. unfold send.
+    pose proof (retry_zero_no_wait _ _ (sock_send (b :: rest')) F ri s sels) as HZ.
+    pose proof (retry_dt_ge _ _ (sock_send (b :: rest')) send_costs_ok (sock_send_inv (b :: rest')) F ri (Some 0) s sels Hc)
+      as [HD HI].
+    set (r := retry (sock_send (b :: rest')) F ri (Some 0) s sels) in *.
+    rewrite HZ in HD. simpl in HD.
+    destruct (rr_out r) as [sent T1| |c|]; try exact HZ.
+    assert (E : recompute (Some 0) (rr_dt r) = Some 0) by (simpl; f_equal; lia).
+    rewrite E. simpl. rewrite HZ. simpl. apply IH. exact HI.
+Qed.
+
+Lemma send_iter_zero : forall drop_empty has_sendmsg iov F fuel ri chunks s sels,
+  send_costs_ok s ->
+  sr_waits (send_iter drop_empty has_sendmsg iov F fuel ri chunks (Some 0) s sels) = [].
+Proof.
+  intros. unfold send_iter. destruct ((iov <=? 0) || negb has_sendmsg).
+  - unfold send_all_join, send_all. destruct (concat chunks) as [|b d].
+    + unfold send.
+      pose proof (retry_zero_no_wait _ _ (sock_send []) F ri s sels) as HZ.
+      destruct (rr_out (retry (sock_send []) F ri (Some 0) s sels)); exact HZ.
+    + apply send_all_loop_zero; assumption.
+  - apply sendmsg_loop_zero.
+Qed.
+
+Lemma client_send_zero : forall drop_empty has_sendmsg iov F fuel ri chunks l s sels,
+  send_costs_ok s ->
+  cs_lockwaits (client_send drop_empty has_sendmsg iov F fuel ri chunks (Some 0) l s sels) = []
+  /\ sr_waits (cs_sr (client_send drop_empty has_sendmsg iov F fuel ri chunks (Some 0) l s sels)) = [].
+Proof.
+  intros. unfold client_send. destruct l as [|acq el]; simpl.
+  - split; [reflexivity|].
+    unfold convert_sr.
+    destruct (sr_out (send_iter drop_empty has_sendmsg iov F fuel ri chunks (Some 0) s sels)); simpl;
+      apply send_iter_zero; assumption.
+  - split; reflexivity.
+Qed.
+
+(* ---- the asynchronous iterator: time spent up to and including the first StopAsyncIteration is at most T *)
+Fixpoint aiter_time (steps : list astep) : Z :=
+  match steps with
+  | [] => 0
+  | st :: rest => as_dt st + (if as_out st =? 0 then aiter_time rest else 0)
+  end.
+
+Lemma aiter_budget : forall arr t,
+  0 <= t -> Forall (fun a => match a with ArrAfter d => 0 <= d | ArrErr => True end) arr ->
+  aiter_time (aiter_run (Some t) arr) <= t.
+Proof.
+  induction arr as [|a arr IH]; intros t Ht HF; simpl; [lia|].
+  inversion HF as [|? ? Ha HF']; subst.
+  destruct a as [d|]; simpl.
+  - destruct ((d =? 0) || (d <? t)) eqn:E; simpl.
+    + assert (Hd : d <= t).
+      { apply orb_true_iff in E. destruct E as [E|E]; [apply Z.eqb_eq in E; lia | apply Z.ltb_lt in E; lia]. }
+      specialize (IH (Z.max 0 (t - d))). assert (0 <= Z.max 0 (t - d)) by lia.
+      specialize (IH H HF'). lia.
+    + unfold E_TIMEOUT. simpl. lia.
+  - unfold E_CONN. simpl. lia.
+Qed.
+
+(* with a zero timeout no __anext__ takes any time *)
+Lemma aiter_zero : forall arr,
+  Forall (fun a => match a with ArrAfter d => 0 <= d | ArrErr => True end) arr ->
+  Forall (fun st => as_dt st = 0) (aiter_run (Some 0) arr).
+Proof.
+  induction arr as [|a arr IH]; intros HF; simpl; [constructor|].
+  inversion HF as [|? ? Ha HF']; subst.
+  destruct a as [d|]; simpl.
+  - destruct ((d =? 0) || (d <? 0)) eqn:E; simpl.
+    + apply orb_true_iff in E.
+      assert (d = 0) by (destruct E as [E|E]; [apply Z.eqb_eq in E; lia | apply Z.ltb_lt in E; lia]).
+      subst d. constructor; [reflexivity|]. simpl. apply IH. exact HF'.
+    + constructor; [reflexivity|]. apply IH. exact HF'.
+  - constructor; [reflexivity|]. apply IH. exact HF'.
+Qed.
